@@ -13,7 +13,6 @@ package rls
 import (
 	"fmt"
 	"os"
-	"strconv"
 	"strings"
 	"testing"
 	"testing/synctest"
@@ -115,9 +114,8 @@ type c41bOp struct {
 	d    time.Duration
 }
 
-func c41bOps(nKeys int, fineClock bool) []c41bOp {
+func c41bOps(nKeys int, sizes []int64, fineClock bool) []c41bOp {
 	var ops []c41bOp
-	sizes := []int64{1, 2, 5}
 	for k := 1; k <= nKeys; k++ {
 		ops = append(ops, c41bOp{name: fmt.Sprintf("get(%d)", k), kind: "get", k: k})
 	}
@@ -400,24 +398,47 @@ func TestVerif_C41_RLSCache(t *testing.T) {
 	const P = c41bP
 	r := vk.Start(t, "c41b_rlscache", "model_checking", P)
 	defer r.Finish()
-	nKeys := r.Pick(3, 4)
-	depth := r.Pick(6, 8)
-	if v, err := strconv.Atoi(os.Getenv("VERIF_C41B_DEPTH")); err == nil { // experiments only
-		depth = v
+	type scen struct {
+		name  string
+		keys  int
+		sizes []int64
+		fine  bool
+		depth int
 	}
-	if v, err := strconv.Atoi(os.Getenv("VERIF_C41B_KEYS")); err == nil { // experiments only
-		nKeys = v
+	var scens []scen
+	if r.Thorough() {
+		scens = []scen{
+			{"datacache-3keys", 3, []int64{1, 2, 5}, true, 7},
+			{"datacache-4keys", 4, []int64{1, 2, 5}, false, 6},
+			{"datacache-2keys-deep", 2, []int64{2, 5}, false, 9},
+		}
+	} else {
+		scens = []scen{
+			{"datacache-3keys", 3, []int64{1, 2, 5}, false, 6},
+			{"datacache-2keys-deep", 2, []int64{2, 5}, false, 7},
+		}
 	}
-	ops := c41bOps(nKeys, r.Thorough() || os.Getenv("VERIF_C41B_FINE") != "")
-	names := make([]string, len(ops))
-	for i, o := range ops {
-		names[i] = o.name
+	if v := os.Getenv("VERIF_C41B_ONLY"); v != "" { // experiments only
+		var keep []scen
+		for _, sc := range scens {
+			if sc.name == v {
+				keep = append(keep, sc)
+			}
+		}
+		scens = keep
 	}
-	r.Rule(P, fmt.Sprintf("breadth-first over ALL operation sequences up to the depth bound on a fresh real dataCache (maxSize 6) in a synctest bubble: addEntry(absent key of %d, size 1|2|5, {not evictable for 5 s, expires in 10 s} | {evictable at once, expires in 3 s, backoff expiry in 6 s}), getEntry(k), resize(3|6), evictExpiredEntries, updateEntrySize(present k, 1|2|5), advance 2 s | 5 s. After the last operation of every history (every operation in the thorough tier) the real cache is compared with an ordered-list LRU reference: currentSize == sum of entry sizes, same entries with same sizes in the same recency order (read from the private list), same maxSize, same return values. A state = private fields (maxSize, currentSize, LRU order with sizes and time-to-evictable / time-to-expiry) + the reference; distinct states are the non-trivial cases", nKeys))
+	r.Rule(P, "breadth-first over ALL operation sequences up to the depth bound on a fresh real dataCache (maxSize 6) in a synctest bubble: addEntry(absent key, size, {not evictable for 5 s, expires in 10 s} | {evictable at once, expires in 3 s, backoff expiry in 6 s}), getEntry(k), resize(3|6), evictExpiredEntries, updateEntrySize(present k, size), advance 5 s (and 2 s where stated). Scenarios quick: 3 keys x sizes {1,2,5} depth 6; 2 keys x sizes {2,5} depth 7. Thorough: 3 keys x sizes {1,2,5} with advance 2 s|5 s depth 7; 4 keys x sizes {1,2,5} depth 6; 2 keys x sizes {2,5} depth 9. After the last operation of every history (every operation in the thorough tier) the real cache is compared with an ordered-list LRU reference: currentSize == sum of entry sizes, same entries with same sizes in the same recency order (read from the private list), same maxSize, same return values. A state = private fields (maxSize, currentSize, LRU order with sizes and time-to-evictable / time-to-expiry) + the reference; distinct states are the non-trivial cases")
 	r.Assume(P, "an entry is evictable from its earliestEvictTime on (inclusive) and expired from its expiryTime/backoffExpiryTime on (inclusive: 'stops being valid at'); an entry larger than the cache is refused; updateEntrySize alone never evicts; operations are serialized (the balancer holds cacheMu)")
-	seqx.BFS(r, []string{P}, seqx.Config{
-		Name: "datacache", Ops: names, MaxDepth: depth, Parallel: 16,
-		Congruence: r.Thorough(), CongruenceMax: 200, MinStates: 50,
-		Run: func(hist []int) seqx.Outcome { return c41bRun(t, ops, r.Thorough(), hist) },
-	})
+	for _, sc := range scens {
+		ops := c41bOps(sc.keys, sc.sizes, sc.fine)
+		names := make([]string, len(ops))
+		for i, o := range ops {
+			names[i] = o.name
+		}
+		seqx.BFS(r, []string{P}, seqx.Config{
+			Name: sc.name, Ops: names, MaxDepth: sc.depth, Parallel: 16,
+			Congruence: r.Thorough(), CongruenceMax: 200, MinStates: 50,
+			Run: func(hist []int) seqx.Outcome { return c41bRun(t, ops, r.Thorough(), hist) },
+		})
+	}
 }
